@@ -15,7 +15,7 @@ MANIFEST = {
         "design_ref": "DESIGN.md 3/C19",
     }
 }
-PROPS = ["Nstd.Path.Props", "Nstd.Path.FsProps", "Nstd.Path.Props2"]
+PROPS = ["Nstd.Path.Props", "Nstd.Path.FsProps", "Nstd.Path.Props2", "Nstd.Path.FsProps2"]
 LEAN_TARGETS = PROPS + ["drv_path"]
 DRIVER = "drv_path"
 SOURCES = ["path.cpp", C.REPO / "src/File.cpp", C.REPO / "src/Directory.cpp", C.REPO / "src/String.cpp",
